@@ -175,3 +175,140 @@ Proof.
   - intros L u. tupd; [rewrite Hl|]; now apply C12.
   - intros u. tupd; [assumption|apply C13].
 Qed.
+
+Definition shared (s' : tsys) cap alloc cached free ptrs lock out dups A F clog cver : Prop :=
+  t_cap s' = cap /\ t_alloc s' = alloc /\ t_cached s' = cached /\ t_free s' = free /\
+  t_ptrs s' = ptrs /\ t_lock s' = lock /\ t_out s' = out /\ t_dups s' = dups /\
+  t_A s' = A /\ t_F s' = F /\ t_clog s' = clog /\ t_cver s' = cver.
+
+Ltac tbuild s' Hsh Et :=
+  let E1 := fresh in let E2 := fresh in let E3 := fresh in let E4 := fresh in let E5 := fresh in
+  let E6 := fresh in let E7 := fresh in let E8 := fresh in let E9 := fresh in let E10 := fresh in
+  let E11 := fresh in let E12 := fresh in
+  destruct Hsh as (E1 & E2 & E3 & E4 & E5 & E6 & E7 & E8 & E9 & E10 & E11 & E12);
+  eapply (TInv_build s' _ _ _ _ _ _ _ _ _ _ _ _ _ E1 E2 E3 E4 E5 E6 E7 E8 E9 E10 E11 E12 Et).
+
+(* (b1) free is called: the harness takes entry j out of its list *)
+Lemma L_pick s s' t x' j :
+  TInv s -> j < length (t_out s) ->
+  shared s' (t_cap s) (t_alloc s) (t_cached s) (t_free s) (t_ptrs s) (t_lock s) (remove_nth j (t_out s))
+         (t_dups s) (t_A s) (t_F s) (t_clog s) (t_cver s) ->
+  (forall u, t_thr s' u = upd (t_thr s) t x' u) ->
+  hold s (t_pc (t_thr s t)) = None -> holds_lock (t_pc (t_thr s t)) = false ->
+  t_pc x' = FLock (fst (nth j (t_out s) (0, 0))) -> TInv s'.
+Proof.
+  intros I Hj Hsh Et Hh Hl Hpc.
+  pose proof I as [C0 C1 C2 C3 C4 C5 C6 C7 C8 C9 C10 C11 C12 C13 C14].
+  unfold ringl, hold, kn in *.
+  set (b := fst (nth j (t_out s) (0, 0))) in *.
+  assert (Hbn : b = nth j (map fst (t_out s)) 0).
+  { unfold b. rewrite (nth_indep _ 0 (fst (0, 0))) by (rewrite map_length; assumption). now rewrite map_nth. }
+  assert (Hin : In b (map fst (t_out s))) by (rewrite Hbn; apply nth_In; rewrite map_length; assumption).
+  destruct (remove_nth_nodup j (map fst (t_out s)) 0 C7 ltac:(rewrite map_length; assumption)) as [N1 N2].
+  rewrite <- remove_nth_map in N1, N2. rewrite <- Hbn in N2.
+  tbuild s' Hsh Et; try assumption.
+  - intros b0 K. apply C8. rewrite remove_nth_map in K. eapply remove_nth_in; eauto.
+  - intros u b0 Hu. tupd.
+    + rewrite Hpc in Hu. simpl in Hu. assert (b0 = b) by congruence. subst b0.
+      destruct (C8 b Hin). repeat split; assumption.
+    + destruct (C9 u b0 Hu) as (K1 & K2 & K3). repeat split; try assumption.
+      intros K. apply K3. rewrite remove_nth_map in K. eapply remove_nth_in; eauto.
+  - intros u v b0 Hu Hv. tupd; try reflexivity; try (rewrite Hpc in *; simpl in * );
+      try (match goal with H : hold_of _ _ _ (t_pc (t_thr s ?z)) = Some ?b' |- _ =>
+             assert (b' = b) by congruence; subst b'; destruct (C9 z b H) as (_ & _ & K); contradiction end).
+    eapply C10; eauto.
+  - intros u v Hu Hv. tupd; try reflexivity; try (rewrite Hpc in *; simpl in *; discriminate). eapply C11; eauto.
+  - intros L u. tupd; [rewrite Hpc; reflexivity|]. now apply C12.
+  - intros u. tupd; [rewrite Hpc; exact Logic.I|apply C13].
+Qed.
+
+(* (b2) alloc returns block d to the harness *)
+Lemma L_ret s s' t x' d :
+  TInv s -> t_pc (t_thr s t) = ARet d ->
+  shared s' (t_cap s) (t_alloc s) (t_cached s) (t_free s) (t_ptrs s) (t_lock s) (ret_out (t_out s) d t)
+         (ret_dups (t_out s) d (t_dups s)) (t_A s) (t_F s) (t_clog s) (t_cver s) ->
+  (forall u, t_thr s' u = upd (t_thr s) t x' u) ->
+  t_pc x' = TFin \/ t_pc x' = TYield -> TInv s'.
+Proof.
+  intros I Epc Hsh Et Hpc.
+  pose proof I as [C0 C1 C2 C3 C4 C5 C6 C7 C8 C9 C10 C11 C12 C13 C14].
+  unfold ringl, hold, kn in *.
+  assert (Hh : hold_of (t_ptrs s) (t_cap s) (t_F s) (t_pc (t_thr s t)) = Some d) by (rewrite Epc; reflexivity).
+  destruct (C9 t d Hh) as (D1 & D2 & D3).
+  assert (Hf : owned_in d (t_out s) = false) by (now apply owned_in_false_iff).
+  unfold ret_out, ret_dups in Hsh. rewrite Hf in Hsh.
+  assert (Hn : hold_of (t_ptrs s) (t_cap s) (t_F s) (t_pc x') = None /\ holds_lock (t_pc x') = false /\
+               kn_of (t_ptrs s) (t_cap s) (t_A s) (t_F s) (t_cached s) (t_cver s) (t_pc x')).
+  { destruct Hpc as [-> | ->]; repeat split. }
+  destruct Hn as (N1 & N2 & N3).
+  tbuild s' Hsh Et; try assumption.
+  - rewrite map_app. simpl. apply NoDup_app_one; assumption.
+  - intros b. rewrite map_app, in_app_iff. simpl. intros [K|[K|[]]]; [now apply C8|subst; split; assumption].
+  - intros u b Hu. rewrite map_app, in_app_iff. simpl. tupd; [congruence|].
+    destruct (C9 u b Hu) as (K1 & K2 & K3). repeat split; try assumption.
+    intros [K|[K|[]]]; [contradiction|]. subst b. apply n. eapply C10; eauto.
+  - intros u v b Hu Hv. tupd; try reflexivity; try congruence. eapply C10; eauto.
+  - intros u v Hu Hv. tupd; try reflexivity; try congruence. eapply C11; eauto.
+  - intros L u. tupd; [assumption|]. now apply C12.
+  - intros u. tupd; [assumption|apply C13].
+Qed.
+
+(* (c) cached_free_pos := the value loaded from free_idx, with no allocation since the load *)
+Lemma L_cached s s' t x' v gf :
+  TInv s -> v = gf mod t_cap s -> t_A s < gf <= t_F s + t_cap s ->
+  shared s' (t_cap s) (t_alloc s) v (t_free s) (t_ptrs s) (t_lock s) (t_out s)
+         (t_dups s) (t_A s) (t_F s) gf (S (t_cver s)) ->
+  (forall u, t_thr s' u = upd (t_thr s) t x' u) ->
+  hold s (t_pc (t_thr s t)) = None -> holds_lock (t_pc (t_thr s t)) = false ->
+  hold s (t_pc x') = None -> holds_lock (t_pc x') = false ->
+  kn_of (t_ptrs s) (t_cap s) (t_A s) (t_F s) v (S (t_cver s)) (t_pc x') -> TInv s'.
+Proof.
+  intros I Hv Hgf Hsh Et Hh Hl Hh' Hl' Hk.
+  pose proof I as [C0 C1 C2 C3 C4 C5 C6 C7 C8 C9 C10 C11 C12 C13 C14].
+  unfold ringl, hold, kn in *.
+  tbuild s' Hsh Et; try assumption.
+  - split; assumption.
+  - intros u b Hu. tupd; [congruence|]. eapply C9; eauto.
+  - intros u w b Hu Hw. tupd; try reflexivity; try congruence. eapply C10; eauto.
+  - intros u w Hu Hw. tupd; try reflexivity; try congruence. eapply C11; eauto.
+  - intros L u. tupd; [assumption|]. now apply C12.
+  - intros u. tupd; [assumption|]. pose proof (C13 u) as K.
+    destruct (t_pc (t_thr s u)); simpl in *; try assumption.
+    destruct K as (K1 & K2 & K3 & K4 & K5). repeat split; try assumption; try lia.
+Qed.
+
+(* (d) a CAS on alloc_idx takes the head of the ring *)
+Lemma L_alloc s s' t x' d :
+  TInv s -> d = t_ptrs s (t_A s mod t_cap s) -> t_A s + 2 <= t_clog s ->
+  shared s' (t_cap s) ((t_A s + 1) mod t_cap s) (t_cached s) (t_free s) (t_ptrs s) (t_lock s) (t_out s)
+         (t_dups s) (S (t_A s)) (t_F s) (t_clog s) (t_cver s) ->
+  (forall u, t_thr s' u = upd (t_thr s) t x' u) ->
+  hold s (t_pc (t_thr s t)) = None -> holds_lock (t_pc (t_thr s t)) = false ->
+  t_pc x' = ARet d -> TInv s'.
+Proof.
+  intros I Hd Hcl Hsh Et Hh Hl Hpc.
+  pose proof I as [C0 C1 C2 C3 C4 C5 C6 C7 C8 C9 C10 C11 C12 C13 C14].
+  unfold ringl, hold, kn in *.
+  pose proof (ringl_alloc (t_ptrs s) (t_cap s) (t_A s) (t_F s) C3) as ER. rewrite <- Hd in ER.
+  rewrite ER in C5, C6, C8, C9. apply NoDup_cons_iff in C5 as [Hdn Hnd].
+  tbuild s' Hsh Et; try assumption.
+  - f_equal. lia.
+  - lia.
+  - destruct C4 as [K1 K2]. split; [assumption|lia].
+  - intros b K. apply C6. now right.
+  - intros b K. destruct (C8 b K) as [K1 K2]. split; [assumption|]. intros K3. apply K2. now right.
+  - intros u b Hu. tupd.
+    + rewrite Hpc in Hu. simpl in Hu. assert (b = d) by congruence. subst b.
+      split; [apply C6; now left|]. split; [assumption|]. intros K. destruct (C8 d K) as [_ K2]. apply K2. now left.
+    + destruct (C9 u b Hu) as (K1 & K2 & K3). repeat split; try assumption. intros K. apply K2. now right.
+  - intros u w b Hu Hw. tupd; try reflexivity; try (rewrite Hpc in *; simpl in * );
+      try (match goal with H : hold_of _ _ _ (t_pc (t_thr s ?z)) = Some ?b' |- _ =>
+             assert (b' = d) by congruence; subst b'; destruct (C9 z d H) as (_ & K & _); exfalso; apply K; now left end).
+    eapply C10; eauto.
+  - intros u w Hu Hw. tupd; try reflexivity; try (rewrite Hpc in *; simpl in *; discriminate). eapply C11; eauto.
+  - intros L u. tupd; [rewrite Hpc; reflexivity|]. now apply C12.
+  - intros u. tupd; [rewrite Hpc; exact Logic.I|]. pose proof (C13 u) as K.
+    destruct (t_pc (t_thr s u)); simpl in *; try assumption.
+    + destruct K as (K1 & K2 & K3 & K4 & K5). repeat split; try assumption; try lia.
+    + destruct K as (K1 & K2 & K3 & K4 & K5). repeat split; try assumption; try lia.
+Qed.
